@@ -278,6 +278,17 @@ def constructor_cases(rng):
         wg = lambda pa=pa, **kw: mo.WormGear(**dict(dict(name='w', n_starts=2, inertia_moment=J, pressure_angle=U.Angle(pa, 'deg'), helix_angle=U.Angle(10, 'deg')), **kw))
         ww = lambda pa=pa, **kw: mo.WormWheel(**dict(dict(name='w', n_teeth=30, inertia_moment=J, pressure_angle=U.Angle(pa, 'deg'), helix_angle=U.Angle(10, 'deg')), **kw))
         over = mx + rng.choice([0.01, 1, 20])
+        # the same pressure angle written in another unit (harness conversion): the worm limit must not depend on it
+        pu = rng.choice(['rad', 'rot', 'arcmin', 'arcsec'])
+        pa_u = lambda pa=pa, pu=pu: U.Angle(SI.convert('Angle', pa, 'deg', pu), pu)
+        next_mx = {14.5: 25, 20: 35, 25: 45, 30: 60}[pa]
+        between = mx + 0.5 * (min(next_mx, 89) - mx)
+        C += [(f'worm pa={pa} written in {pu}, helix={between} (above its limit, below the next row)',
+               lambda wg=wg, pa_u=pa_u, between=between: wg(pressure_angle=pa_u(), helix_angle=U.Angle(between, 'deg')), 'reject'),
+              (f'wheel pa={pa} written in {pu}, helix={between}',
+               lambda ww=ww, pa_u=pa_u, between=between: ww(pressure_angle=pa_u(), helix_angle=U.Angle(between, 'deg')), 'reject'),
+              (f'worm pa={pa} written in {pu}, helix=10',
+               lambda wg=wg, pa_u=pa_u: wg(pressure_angle=pa_u()), 'accept')]
         C += [(f'worm pa={pa} helix={over}', lambda wg=wg, over=over: wg(helix_angle=U.Angle(over, 'deg')), 'reject'),
               (f'worm pa={pa} helix=max', lambda wg=wg, mx=mx: wg(helix_angle=U.Angle(mx, 'deg')), 'accept'),
               (f'wheel pa={pa} helix={over}', lambda ww=ww, over=over: ww(helix_angle=U.Angle(over, 'deg')), 'reject'),
